@@ -55,11 +55,24 @@ func propC14(ch core.Chooser, st *core.Stats) error {
 		return ukeys[ch.Int("key", 0, len(ukeys)-1)]
 	}
 	var keepErr error
-	keep := func(what string, s []byte) {
+	// retain records a returned slice with a private copy of its present contents
+	retain := func(what string, s []byte) {
 		if s == nil {
 			return
 		}
 		kept = append(kept, retained{what: what, slice: s, copy: append([]byte{}, s...)})
+	}
+	var grow func(what string, s []byte)
+	// keep = retain, then grow; slices returned by one call are all retained before any of them
+	// is grown (growing one must not reach the other)
+	keep := func(what string, s []byte) {
+		retain(what, s)
+		grow(what, s)
+	}
+	grow = func(what string, s []byte) {
+		if s == nil {
+			return
+		}
 		if what != "GetAppend" && cap(s) > len(s) && keepErr == nil {
 			// the slice is the caller's: growing it within its capacity must neither fault nor
 			// reach memory of the database (a later comparison with the reference shows damage)
@@ -214,8 +227,14 @@ func propC14(ch core.Chooser, st *core.Stats) error {
 					if want, ok := model[string(k)]; !ok || want != string(v) {
 						return fmt.Errorf("Next returned %s=%s, reference has %s (present=%v)", dbx.K(string(k)), dbx.V(string(v)), dbx.V(want), ok)
 					}
-					keep("ItemIterator.Next (key)", k)
-					keep("ItemIterator.Next (value)", v)
+					kc, vc := append([]byte{}, k...), append([]byte{}, v...)
+					retain("ItemIterator.Next (key)", k)
+					retain("ItemIterator.Next (value)", v)
+					grow("ItemIterator.Next (key)", k)
+					grow("ItemIterator.Next (value)", v)
+					if !bytes.Equal(v, vc) || !bytes.Equal(k, kc) {
+						return fmt.Errorf("appending within its capacity to a slice returned by ItemIterator.Next changed the other slice returned by the same call (key now %s, value now %s)", dbx.V(string(k)), dbx.V(string(v)))
+					}
 				}
 				return nil
 			})
